@@ -1,1 +1,301 @@
+//! KI5c — block layer: TypeDo (BFINAL/BTYPE), Stored/CopyBlock (LEN/NLEN, byte alignment, copy accounting), Table (C02, C03, C04, C15).
 use super::*;
+
+/// TypeDo from any bit offset: BFINAL/BTYPE decoded per RFC 1951 3.2.3; last block goes to the trailer.
+#[kani::proof]
+#[kani::unwind(5)]
+#[kani::stub(crate::inflate::inftrees::inflate_table, stub_table_unreachable)]
+#[kani::stub(core::fmt::write, stub_fmt_write)]
+#[kani::stub(core::panicking::panic_nounwind, stub_pn)]
+#[kani::stub(core::panicking::panic_nounwind_fmt, stub_pnf)]
+#[kani::stub(crate::inflate::inflate_fast_help, stub_fast_unreachable)]
+#[kani::stub(crate::inflate::State::len_and_friends, stub_laf_suspends)]
+#[kani::stub(crate::inflate::writer::Writer::copy_match, stub_copy_match_unreachable)]
+#[kani::stub(crate::inflate::writer::Writer::extend_from_window, stub_efw_unreachable)]
+#[kani::stub(<[u16]>::fill, stub_fill_unreachable)]
+fn ki5c_typedo() {
+    let input: [u8; 1] = kani::any();
+    let n_in: usize = kani::any();
+    let nb: u8 = kani::any();
+    kani::assume(n_in <= 1 && nb <= 7 && nb as usize + 8 * n_in <= 9);
+    let pv: u64 = kani::any();
+    let mut out = [0u8; 4];
+    let mut win = [0u8; 8 + 64];
+    let mut state = typed_state(&mut win, 0, Mode::TypeDo);
+    let was_last: bool = kani::any();
+    state.flags.update(Flags::IS_LAST_BLOCK, was_last);
+    state.flush = any_flush();
+    let flush = state.flush;
+    state.bit_reader.prime(nb, pv);
+    let pv = pv & ((1u64 << nb) - 1);
+    unsafe { state.bit_reader.update_slice(input.as_ptr(), n_in) };
+    state.in_available = n_in;
+    state.writer = unsafe { Writer::new_uninit(out.as_mut_ptr(), 0) };
+    let rc = state.dispatch();
+    let used = consumed(&state, input.as_ptr());
+    let mode = state.mode;
+    let bits_left = state.bit_reader.bits_in_buffer() as usize;
+    let last_now = state.flags.contains(Flags::IS_LAST_BLOCK);
+    core::mem::forget(state);
+    assert!(used <= n_in);
+    let all = pv | ((input[0] as u64) << nb);
+    let avail = nb as usize + 8 * n_in;
+    if was_last {
+        // raw stream: trailer is empty, so this is the end of the stream; padding bits dropped
+        assert!(rc == ReturnCode::StreamEnd && matches!(mode, Mode::Done) && used == 0 && bits_left == 0);
+    } else if avail < 3 {
+        assert!(rc == ReturnCode::Ok && matches!(mode, Mode::TypeDo) && used == n_in);
+    } else {
+        let bfinal = all & 1 != 0;
+        let btype = (all >> 1) & 3;
+        assert!(last_now == bfinal);
+        match btype {
+            0 => assert!(rc == ReturnCode::Ok && matches!(mode, Mode::Stored) && bits_left % 8 == 0),
+            1 => {
+                assert!(rc == ReturnCode::Ok);
+                if matches!(flush, InflateFlush::Trees) {
+                    assert!(matches!(mode, Mode::Len_));
+                } else {
+                    assert!(matches!(mode, Mode::Len));
+                }
+            }
+            2 => assert!(rc == ReturnCode::Ok && matches!(mode, Mode::Table)),
+            _ => assert!(rc == ReturnCode::DataError && matches!(mode, Mode::Bad)),
+        }
+    }
+    kani::cover!(!was_last && avail >= 3 && ((all >> 1) & 3) == 3);
+    kani::cover!(!was_last && avail == 9 && ((all >> 1) & 3) == 1);
+    kani::cover!(was_last && nb == 5);
+}
+
+/// Stored block: header at any bit offset, LEN/NLEN complement, copy accounting with symbolic input/output sizes.
+#[kani::proof]
+#[kani::unwind(12)]
+#[kani::stub(crate::inflate::inftrees::inflate_table, stub_table_unreachable)]
+#[kani::stub(core::fmt::write, stub_fmt_write)]
+#[kani::stub(core::panicking::panic_nounwind, stub_pn)]
+#[kani::stub(core::panicking::panic_nounwind_fmt, stub_pnf)]
+#[kani::stub(crate::inflate::inflate_fast_help, stub_fast_unreachable)]
+#[kani::stub(crate::inflate::State::len_and_friends, stub_laf_suspends)]
+#[kani::stub(crate::inflate::writer::Writer::copy_match, stub_copy_match_unreachable)]
+#[kani::stub(crate::inflate::writer::Writer::extend_from_window, stub_efw_unreachable)]
+#[kani::stub(<[u16]>::fill, stub_fill_unreachable)]
+fn ki5c_stored() {
+    const NI: usize = 8;
+    const CAP: usize = 4;
+    let input: [u8; NI] = kani::any();
+    let n_in: usize = kani::any();
+    kani::assume(n_in <= NI);
+    let nb: u8 = kani::any();
+    kani::assume(nb <= 7);
+    let pv: u64 = kani::any();
+    let init: [u8; CAP + 2] = kani::any();
+    let mut out = init;
+    let n_out: usize = kani::any();
+    kani::assume(n_out <= CAP);
+    let mut win = [0u8; 8 + 64];
+    let mut state = typed_state(&mut win, 0, Mode::Stored);
+    state.flags.update(Flags::IS_LAST_BLOCK, true); // the chain then ends in Done instead of the next block header
+    let fl: bool = kani::any();
+    state.flush = if fl { InflateFlush::Block } else { InflateFlush::NoFlush };
+    state.bit_reader.prime(nb, pv);
+    unsafe { state.bit_reader.update_slice(input.as_ptr(), n_in) };
+    state.in_available = n_in;
+    state.writer = unsafe { Writer::new_uninit(out.as_mut_ptr(), n_out) };
+    state.out_available = n_out;
+    let rc = state.dispatch();
+    let used = consumed(&state, input.as_ptr());
+    let produced = state.writer.len();
+    let mode = state.mode;
+    let rest = state.length;
+    core::mem::forget(state);
+    assert!(used <= n_in && produced <= n_out);
+    if n_in < 4 {
+        assert!(rc == ReturnCode::Ok && matches!(mode, Mode::Stored) && used == n_in && produced == 0);
+    } else {
+        let len = u16::from_le_bytes([input[0], input[1]]);
+        let nlen = u16::from_le_bytes([input[2], input[3]]);
+        if len != !nlen {
+            assert!(rc == ReturnCode::DataError && matches!(mode, Mode::Bad) && produced == 0);
+        } else {
+            let len = len as usize;
+            let mut copy = len;
+            if copy > n_in - 4 {
+                copy = n_in - 4;
+            }
+            if copy > n_out {
+                copy = n_out;
+            }
+            assert!(produced == copy && used == 4 + copy);
+            if copy < len {
+                assert!(rc == ReturnCode::Ok && matches!(mode, Mode::CopyBlock) && rest == len - copy);
+            } else if fl {
+                assert!(rc == ReturnCode::Ok && matches!(mode, Mode::Type));
+            } else {
+                assert!(rc == ReturnCode::StreamEnd && matches!(mode, Mode::Done));
+            }
+            let mut i = 0;
+            while i < CAP + 2 {
+                if i < copy {
+                    assert!(out[i] == input[4 + i]);
+                } else {
+                    assert!(out[i] == init[i]);
+                }
+                i += 1;
+            }
+        }
+    }
+    kani::cover!(rc == ReturnCode::StreamEnd && produced == 4);
+    kani::cover!(matches!(mode, Mode::CopyBlock) && produced == 2 && n_out == 2);
+    kani::cover!(rc == ReturnCode::DataError);
+}
+
+/// CopyBlock resumed with any remaining length: same accounting (the state a previous call left behind)
+#[kani::proof]
+#[kani::unwind(12)]
+#[kani::stub(crate::inflate::inftrees::inflate_table, stub_table_unreachable)]
+#[kani::stub(core::fmt::write, stub_fmt_write)]
+#[kani::stub(core::panicking::panic_nounwind, stub_pn)]
+#[kani::stub(core::panicking::panic_nounwind_fmt, stub_pnf)]
+#[kani::stub(crate::inflate::inflate_fast_help, stub_fast_unreachable)]
+#[kani::stub(crate::inflate::State::len_and_friends, stub_laf_suspends)]
+#[kani::stub(crate::inflate::writer::Writer::copy_match, stub_copy_match_unreachable)]
+#[kani::stub(crate::inflate::writer::Writer::extend_from_window, stub_efw_unreachable)]
+#[kani::stub(<[u16]>::fill, stub_fill_unreachable)]
+fn ki5c_copyblock_resume() {
+    const NI: usize = 6;
+    const CAP: usize = 6;
+    let input: [u8; NI] = kani::any();
+    let n_in: usize = kani::any();
+    kani::assume(n_in <= NI);
+    let init: [u8; CAP + 2] = kani::any();
+    let mut out = init;
+    let n_out: usize = kani::any();
+    kani::assume(n_out <= CAP);
+    let mut win = [0u8; 8 + 64];
+    let mut state = typed_state(&mut win, 0, Mode::CopyBlock);
+    state.flags.update(Flags::IS_LAST_BLOCK, true);
+    state.flush = InflateFlush::Block;
+    let remaining: usize = kani::any();
+    kani::assume(remaining <= 65535);
+    state.length = remaining;
+    unsafe { state.bit_reader.update_slice(input.as_ptr(), n_in) };
+    state.in_available = n_in;
+    state.writer = unsafe { Writer::new_uninit(out.as_mut_ptr(), n_out) };
+    state.out_available = n_out;
+    let rc = state.dispatch();
+    let used = consumed(&state, input.as_ptr());
+    let produced = state.writer.len();
+    let mut copy = remaining;
+    if copy > n_in {
+        copy = n_in;
+    }
+    if copy > n_out {
+        copy = n_out;
+    }
+    assert!(rc == ReturnCode::Ok && used == copy && produced == copy && state.length == remaining - copy);
+    assert!(matches!(state.mode, Mode::CopyBlock) == (copy < remaining));
+    let mut i = 0;
+    while i < CAP + 2 {
+        if i < copy {
+            assert!(out[i] == input[i]);
+        } else {
+            assert!(out[i] == init[i]);
+        }
+        i += 1;
+    }
+    kani::cover!(copy == 6 && remaining == 65535);
+    kani::cover!(remaining == 0);
+    core::mem::forget(state);
+}
+
+/// Table: HLIT/HDIST/HCLEN decoded per RFC 1951 3.2.7; more than 286 / 30 symbols rejected.
+#[kani::proof]
+#[kani::unwind(8)]
+#[kani::stub(crate::inflate::inftrees::inflate_table, stub_table_unreachable)]
+#[kani::stub(core::fmt::write, stub_fmt_write)]
+#[kani::stub(core::panicking::panic_nounwind, stub_pn)]
+#[kani::stub(core::panicking::panic_nounwind_fmt, stub_pnf)]
+#[kani::stub(crate::inflate::inflate_fast_help, stub_fast_unreachable)]
+#[kani::stub(crate::inflate::State::len_and_friends, stub_laf_suspends)]
+#[kani::stub(crate::inflate::writer::Writer::copy_match, stub_copy_match_unreachable)]
+#[kani::stub(crate::inflate::writer::Writer::extend_from_window, stub_efw_unreachable)]
+#[kani::stub(<[u16]>::fill, stub_fill_unreachable)]
+fn ki5c_table() {
+    let input: [u8; 2] = kani::any();
+    let n_in: usize = kani::any();
+    let nb: u8 = kani::any();
+    // at most 16 bits in total: after the 14 header bits fewer than 3 remain, so LenLens suspends at once
+    kani::assume(n_in <= 2 && nb <= 7 && nb as usize + 8 * n_in <= 16);
+    let pv: u64 = kani::any();
+    let mut out = [0u8; 4];
+    let mut win = [0u8; 8 + 64];
+    let mut state = typed_state(&mut win, 0, Mode::Table);
+    state.bit_reader.prime(nb, pv);
+    let pv = pv & ((1u64 << nb) - 1);
+    unsafe { state.bit_reader.update_slice(input.as_ptr(), n_in) };
+    state.in_available = n_in;
+    state.writer = unsafe { Writer::new_uninit(out.as_mut_ptr(), 0) };
+    let rc = state.dispatch();
+    let mode = state.mode;
+    let all = pv | ((input[0] as u64) << nb) | ((input[1] as u64) << (nb + 8));
+    let avail = nb as usize + 8 * n_in;
+    if avail < 14 {
+        assert!(rc == ReturnCode::Ok && matches!(mode, Mode::Table));
+    } else {
+        let nlen = (all & 31) as usize + 257;
+        let ndist = ((all >> 5) & 31) as usize + 1;
+        let ncode = ((all >> 10) & 15) as usize + 4;
+        if nlen > 286 || ndist > 30 {
+            assert!(rc == ReturnCode::DataError && matches!(mode, Mode::Bad));
+        } else {
+            assert!(rc == ReturnCode::Ok && matches!(mode, Mode::LenLens));
+            assert!(state.nlen == nlen && state.ndist == ndist && state.ncode == ncode && state.have == 0);
+        }
+    }
+    kani::cover!(rc == ReturnCode::DataError);
+    kani::cover!(matches!(mode, Mode::LenLens) && state.nlen == 286 && state.ndist == 30);
+    core::mem::forget(state);
+}
+
+/// LenLens: the 3-bit code-length-code lengths are stored in the RFC 1951 3.2.7 permutation order; suspension keeps progress.
+#[kani::proof]
+#[kani::unwind(12)]
+#[kani::stub(crate::inflate::inftrees::inflate_table, stub_table_unreachable)]
+#[kani::stub(core::fmt::write, stub_fmt_write)]
+#[kani::stub(core::panicking::panic_nounwind, stub_pn)]
+#[kani::stub(core::panicking::panic_nounwind_fmt, stub_pnf)]
+#[kani::stub(crate::inflate::inflate_fast_help, stub_fast_unreachable)]
+#[kani::stub(crate::inflate::State::len_and_friends, stub_laf_suspends)]
+#[kani::stub(crate::inflate::writer::Writer::copy_match, stub_copy_match_unreachable)]
+#[kani::stub(crate::inflate::writer::Writer::extend_from_window, stub_efw_unreachable)]
+#[kani::stub(<[u16]>::fill, stub_fill_unreachable)]
+fn ki5c_lenlens_order() {
+    const RFC_ORDER: [usize; 19] = [16, 17, 18, 0, 8, 7, 9, 6, 10, 5, 11, 4, 12, 3, 13, 2, 14, 1, 15];
+    let input: [u8; 2] = kani::any();
+    let mut out = [0u8; 4];
+    let mut win = [0u8; 8 + 64];
+    let mut state = typed_state(&mut win, 0, Mode::LenLens);
+    let ncode: usize = kani::any();
+    let have0: usize = kani::any();
+    // 16 bits = 5 complete lengths: never enough to finish (ncode - have0 >= 6), so the table builder is not reached
+    kani::assume(ncode >= 4 && ncode <= 19 && have0 <= 19 && have0 + 6 <= ncode);
+    state.ncode = ncode;
+    state.have = have0;
+    state.nlen = 257;
+    state.ndist = 1;
+    unsafe { state.bit_reader.update_slice(input.as_ptr(), 2) };
+    state.in_available = 2;
+    state.writer = unsafe { Writer::new_uninit(out.as_mut_ptr(), 0) };
+    let rc = state.dispatch();
+    assert!(rc == ReturnCode::Ok && matches!(state.mode, Mode::LenLens));
+    assert!(state.have == have0 + 5 && consumed(&state, input.as_ptr()) == 2);
+    let all = input[0] as u32 | (input[1] as u32) << 8;
+    let mut k = 0;
+    while k < 5 {
+        assert!(state.lens[RFC_ORDER[have0 + k]] == ((all >> (3 * k)) & 7) as u16);
+        k += 1;
+    }
+    kani::cover!(have0 == 13);
+    core::mem::forget(state);
+}
